@@ -144,6 +144,14 @@ func (r *request) buildHTTP(mediaType, basePath string, producers map[string]run
 				pw.Close()
 			}()
 
+			defer func() {
+				for _, ff := range r.fileFields {
+					for _, ffi := range ff {
+						ffi.Close()
+					}
+				}
+			}()
+
 			for fn, v := range r.formFields {
 				for _, vi := range v {
 					if err := mp.WriteField(fn, vi); err != nil {
@@ -153,13 +161,6 @@ func (r *request) buildHTTP(mediaType, basePath string, producers map[string]run
 				}
 			}
 
-			defer func() {
-				for _, ff := range r.fileFields {
-					for _, ffi := range ff {
-						ffi.Close()
-					}
-				}
-			}()
 			for fn, f := range r.fileFields {
 				for _, fi := range f {
 					var fileContentType string
